@@ -33,10 +33,23 @@ def run(R):
                   "sdk.Dec Mul/Add model (Base/Dec.v), uint64 wrap and int64 casts (Base/Prelude.v)",
                   "no axioms: every theorem of Properties/C09.v is closed under the global context"]
     R.assume += ["signatures: crypto is an input of the model (t_sig_ok); the harness makes real secp256k1 signatures and forges some",
-                 "signers have no custody settings (CustodyDecorator is a pass-through); gas limit positive; no fee granter / explicit fee payer",
-                 "message handlers other than bank send / multi-send / custody send are represented by their outcome (fails / writes one key)",
+                 "custody records of signers have UsePassword / UseWhiteList / UseLimits off (the custody arms for bank send / custody send and the nil-custodians panic are modelled); explicit fee payer, zero gas and a named fee granter are modelled and driven",
+                 "message handlers other than bank send / multi-send / custody send / Ethereum native send are represented by their outcome (fails / writes one key)",
                  "token rates are non-negative (MsgUpsertTokenInfo requires a positive rate)"]
     R.gen("gen_ante", "AnteChain.v")
+    try:
+        import lib.vlib as _v
+    except Exception:
+        import vlib as _v
+    try:
+        g = open(os.path.join(_v.COQ, "Gen", "AnteChain.v")).read()
+        wired = "gen_wired : bool := true" in g
+        post = "gen_post_handler_installed : bool := true" in g
+        R.coverage["wiring"] = {"fee_deduction_uses_feeprocessing_keeper": wired, "post_handler_installed": post,
+                                "refund_path": "live: refunds are exercised by the differential run and bounded by C09_refunds_le_payments_over_histories" if wired
+                                else "dead: C09_refund_path_dead_when_unwired / C09_end_block_returns_nothing_when_unwired apply (no payment history is ever recorded)"}
+    except Exception as ex:
+        R.note("cannot read wiring", ex)
     R.coq_files(FILES)
     R.coq_property()
     R.audit()
